@@ -28,6 +28,7 @@ int qp_parse(const char *text, qprog *p)
 		while (*s == ' ') s++;
 		if (!strncmp(s, "gate;", 5)) { p->gate = 1; s += 5; continue; }
 		if (!strncmp(s, "cold;", 5)) { p->cold = 1; s += 5; continue; }
+		if (!strncmp(s, "slow;", 5)) { p->slow = 1; s += 5; continue; }
 		break;
 	}
 	// queues
@@ -67,7 +68,8 @@ static void body(int id)
 		int *a[2] = { &g_gate_open, (int *)(intptr_t)1 };
 		vx_wait_until(pred_int_ge, a);
 	}
-	item_body(id);
+	if (g_p->slow) { vx_ev(EV_START, id, 0); vx_sleep_ns(1 * MS); vx_ev(EV_END, id, 0); }
+	else item_body(id);
 	g_ended[id] = 1;
 	g_items_ended++;
 }
